@@ -180,7 +180,7 @@ impl<'a> Colrv1ClosureContext<'a> {
             return;
         }
 
-        let last_var_index = var_index_base + num_vars as u32 - 1;
+        let last_var_index = var_index_base.saturating_add(num_vars as u32 - 1);
         self.variation_indices
             .insert_range(var_index_base..=last_var_index);
     }
@@ -269,7 +269,7 @@ impl PaintColrLayers<'_> {
             return;
         };
         let first_layer_index = self.first_layer_index();
-        let last_layer_index = first_layer_index + num_layers as u32 - 1;
+        let last_layer_index = first_layer_index.saturating_add(num_layers as u32 - 1);
         c.add_layer_indices(first_layer_index, last_layer_index);
 
         let offset_data = layer_list.offset_data();
@@ -730,5 +730,33 @@ mod tests {
         assert!(variation_indices.contains(54));
         assert!(variation_indices.contains(55));
         assert!(variation_indices.contains(56));
+    }
+
+    /// `var_index_base + num_vars` and `first_layer_index + num_layers` near
+    /// `u32::MAX` used to overflow.
+    #[test]
+    fn v1_closure_indices_near_u32_max() {
+        let var_index_base: &[u8] = &[
+            0x00, 0x01, 0x00, 0x00, 0x00, 0x00, 0x00, 0x00, 0x00, 0x00, 0x00, 0x00, 0x00, 0x00, 0x00, 0x00,
+            0x00, 0x22, 0x00, 0x00, 0x00, 0x2c, 0x00, 0x00, 0x00, 0x00, 0x00, 0x00, 0x00, 0x00, 0x00, 0x00,
+            0x00, 0x00, 0x00, 0x00, 0x00, 0x01, 0x00, 0x00, 0x00, 0x00, 0x00, 0x12, 0x00, 0x00, 0x00, 0x01,
+            0x00, 0x00, 0x00, 0x08, 0x0f, 0x00, 0x00, 0x0c, 0x00, 0x00, 0x00, 0x00, 0xff, 0xff, 0xff, 0xfe,
+            0x02, 0x00, 0x01, 0x40, 0x00,
+        ];
+        let first_layer_index: &[u8] = &[
+            0x00, 0x01, 0x00, 0x00, 0x00, 0x00, 0x00, 0x00, 0x00, 0x00, 0x00, 0x00, 0x00, 0x00, 0x00, 0x00,
+            0x00, 0x22, 0x00, 0x00, 0x00, 0x2c, 0x00, 0x00, 0x00, 0x00, 0x00, 0x00, 0x00, 0x00, 0x00, 0x00,
+            0x00, 0x00, 0x00, 0x00, 0x00, 0x01, 0x00, 0x00, 0x00, 0x00, 0x00, 0x12, 0x00, 0x00, 0x00, 0x01,
+            0x00, 0x00, 0x00, 0x08, 0x01, 0x01, 0xff, 0xff, 0xff, 0xff,
+        ];
+        for data in [var_index_base, first_layer_index] {
+            let colr = <Colr as crate::FontRead>::read(crate::FontData::new(data)).unwrap();
+            let mut glyphs = IntSet::empty();
+            glyphs.insert_range(GlyphId::new(0)..=GlyphId::new(0xffff));
+            let mut layers = IntSet::empty();
+            let mut palettes = IntSet::empty();
+            let mut variations = IntSet::empty();
+            colr.v1_closure(&mut glyphs, &mut layers, &mut palettes, &mut variations);
+        }
     }
 }
